@@ -27,6 +27,7 @@ class Inconclusive(Exception):
 MODULES = [
     ("src/query/view/claim.rs", "claim.rs", "verif_kani"),
     ("src/entity/allocator/mod.rs", "alloc.rs", "verif_kani"),
+    ("src/archetype/mod.rs", "arch.rs", "verif_kani"),
 ]
 
 # (file, regex matching the line of the `fn`, attribute lines to insert directly above it)
@@ -57,13 +58,55 @@ def prepare(scratch_root=None):
         indent = re.match(r"\s*", lines[i]).group(0)
         lines[i:i] = [indent + a for a in attrs]
         open(p, "w").write("\n".join(lines))
+    hcopy = os.path.join(root, "harness")
+    shutil.copytree(HARNESS_DIR, hcopy)
     for rel, hfile, modname in MODULES:
         p = os.path.join(dst, rel)
         if not os.path.exists(p):
             raise Inconclusive(f"lost anchor: {rel} missing")
         with open(p, "a") as f:
-            f.write(f'\n#[cfg(kani)]\n#[path = "{os.path.join(HARNESS_DIR, hfile)}"]\nmod {modname};\n')
+            f.write(f'\n#[cfg(kani)]\n#[path = "{os.path.join(hcopy, hfile)}"]\nmod {modname};\n')
     return root, dst
+
+
+def harness_file_of(hid):
+    """harness id -> harness source file name (by module path)"""
+    for rel, hfile, modname in MODULES:
+        mod = rel[len("src/"):-len(".rs")].replace("/", "::")
+        if mod.endswith("::mod"):
+            mod = mod[:-5]
+        if hid.startswith(mod + "::" + modname + "::"):
+            return hfile
+    return None
+
+
+def source_line(hfile, line):
+    try:
+        return open(os.path.join(HARNESS_DIR, hfile)).read().split("\n")[int(line) - 1].strip()
+    except Exception:
+        return None
+
+
+def replay(dst, hid, test_text, timeout=900):
+    """Re-execute Kani's concrete counterexample natively against the real crate
+    (`cargo kani playback`).  Returns (failed_as_expected, output tail)."""
+    hfile = harness_file_of(hid)
+    m = re.search(r"fn (kani_concrete_playback_\w+)", test_text or "")
+    if not hfile or not m:
+        return None, "no playback test available"
+    p = os.path.join(os.path.dirname(dst), "harness", hfile)
+    with open(p, "a") as f:
+        f.write("\n" + test_text + "\n")
+    cmd = ["cargo", "kani", "playback", "-Z", "concrete-playback", "--features", FEATURES, "--", m.group(1)]
+    env = dict(os.environ, CARGO_NET_OFFLINE="true")
+    try:
+        pr = subprocess.run(cmd, cwd=dst, capture_output=True, text=True, timeout=timeout, env=env)
+    except subprocess.TimeoutExpired:
+        return None, "playback timed out"
+    out = pr.stdout + pr.stderr
+    failed = ("test result: FAILED" in out) or ("panicked at" in out)
+    keep = [l for l in out.split("\n") if ("panicked" in l or "test result" in l or "assertion" in l or l.startswith("test "))]
+    return failed, " ".join(cmd) + "\n" + "\n".join(keep[-12:])
 
 
 def cleanup(root):
@@ -117,6 +160,13 @@ def run_kani(dst, filters, jobs=8, timeout=1500, harness_timeout=None, extra=Non
         failed = [c for c in r.get("checks", []) if c.get("status") in ("Failure", "FAILURE", "Failed")]
         undet = [c for c in r.get("checks", []) if c.get("status") in ("Undetermined", "UNDETERMINED")]
         covers_unsat = [c for c in r.get("checks", []) if c.get("category") == "cover" and c.get("status") not in ("Satisfied", "SATISFIED")]
+        for c in failed:
+            if "placeholder message" in (c.get("description") or ""):
+                loc = c.get("location") or {}
+                hf = os.path.basename(loc.get("file") or "")
+                sl = source_line(hf, loc.get("line") or 0)
+                if sl:
+                    c["description"] = sl
         inconc = [c for c in failed if any(m in (c.get("description") or "") for m in INCONCLUSIVE_MARKS)]
         real = [c for c in failed if c not in inconc]
         st = stats.get(hid) or {}
